@@ -126,4 +126,19 @@ def run(env: Env) -> Outcome:
     suite.serde_corr(env, out, env.budget(1500, 30000), stability_sig="C12/roundtrip_not_stable")
     suite.direct_corr(env, out, env.budget(800, 16000))
     _pause_resume(env, out, env.budget(160, 3200), corpus)
+    # runs snapshotted while invocations are suspended in wait_for_event (several waiters of one step, requirements that do not
+    # survive serialisation): every such invocation is re-registered on resume (shared with C10's resume family)
+    from .c10 import _resume_runs as _wait_resume
+
+    before = len(out.violations)
+    _wait_resume(env, out, env.budget(40, 800), [])
+    kept = []
+    for v in out.violations[before:]:
+        # C10's own rules (delivery vs requirement, at-most-once) are judged -- with their known findings -- by the C10 check;
+        # here only the re-registration of suspended invocations counts
+        if v.signature == "C10/waiter_not_repinged_on_resume":
+            v.signature = "C12/suspended_invocation_not_reregistered"
+            kept.append(v)
+    del out.violations[before:]
+    out.violations.extend(kept)
     return out
